@@ -121,6 +121,8 @@ pub struct ConnT {
     pub last_handoff_step: Option<usize>,
     /// certainly sitting in the pool's idle list (non-shareable only)
     pub sure_idle: bool,
+    /// real-time upper bound of the instant the pool stamped this connection as idle
+    pub entry_instant_ub: Option<std::time::Instant>,
     pub ever_pooled: bool,
 }
 
@@ -162,6 +164,7 @@ pub struct ReqT {
     pub timed: bool,
     /// virtual deadline of the request when a timeout is configured
     pub deadline_ms: Option<u64>,
+    pub issue_instant: std::time::Instant,
 }
 
 /// C14(a) obligation: connection `conn` entered the pool while the requests `waiting` were
@@ -493,6 +496,7 @@ impl Future for HandshakeFuture {
                     handoffs: 0,
                     last_handoff_step: None,
                     sure_idle: false,
+                    entry_instant_ub: None,
                     ever_pooled: matches!(actor, Actor::Bg),
                 });
                 w.log(|| format!("conn#{id} from dial#{did} shareable={shareable} by {actor:?}"));
@@ -800,6 +804,22 @@ fn handoff(w: &mut World, rid: usize, cid: usize, st: usize, req_okey: &str) {
             }
         }
     }
+    // ---- C05 expiry (real time, one-sided): certainly older than the idle timeout at issue
+    if let (Some(t), Some(ub), false) = (w.cfg.idle_timeout_ms.filter(|t| *t > 0), w.conns[cid].entry_instant_ub, w.conns[cid].shareable) {
+        let issue = w.reqs[rid].issue_instant;
+        let entered_after_issue = w.conns[cid].entry_step.map(|e| e > w.reqs[rid].issue_step).unwrap_or(true);
+        if !entered_after_issue {
+            if let Some(age) = issue.checked_duration_since(ub) {
+                if age > Duration::from_millis(t + 20) {
+                    let msg = format!("request #{rid} was given pooled connection #{cid} which had been idle for at least {} ms when the request was issued (idle_timeout {t} ms)", age.as_millis());
+                    w.violate("C05/expired-connection-handed-out", msg);
+                }
+                if age > Duration::from_millis(t) {
+                    w.classes.insert("handoff-near-or-after-expiry");
+                }
+            }
+        }
+    }
     // ---- bookkeeping
     let reused = w.conns[cid].handoffs > 0 || w.conns[cid].ever_pooled;
     if reused && w.conns.iter().any(|o| o.okey != w.conns[cid].okey && o.handles >= 1 && o.open) {
@@ -994,6 +1014,12 @@ impl Sim {
             if !def.is_empty() || !maybe.is_empty() {
                 w.classes.insert("overlapping-requests-same-origin");
             }
+            if let Some(t) = w.cfg.idle_timeout_ms.filter(|t| *t > 0) {
+                let now = std::time::Instant::now();
+                if w.conns.iter().any(|c| c.okey == okey && !c.shareable && c.sure_idle && c.entry_instant_ub.map(|ub| now.duration_since(ub) > Duration::from_millis(t + 20)).unwrap_or(false)) {
+                    w.classes.insert("issue-with-only-expired-idle-connection");
+                }
+            }
             if w.conns.iter().any(|c| c.okey == okey && c.close_step.is_some() && (c.ever_pooled || c.handoffs > 0) && c.handles >= 1 && c.holders.is_empty()) {
                 w.classes.insert("issue-after-pooled-close");
             }
@@ -1015,6 +1041,7 @@ impl Sim {
                 end_step: None,
                 timed: self.cfg.req_timeout_ms.is_some(),
                 deadline_ms,
+                issue_instant: std::time::Instant::now(),
             });
             w.log(|| format!("issue req#{id} {} h2={h2} must_not_dial={must_not_dial:?}", ORIGINS[origin % ORIGINS.len()]));
         }
@@ -1208,6 +1235,13 @@ impl Sim {
                 }
                 w.cancel_watch.push((st, id, survivors));
                 if status == RStatus::Unpolled {
+                    // a connection it had taken out of the pool is stamped afresh when handed back
+                    let now = std::time::Instant::now() + Duration::from_millis(1);
+                    for c in w.conns.iter_mut().filter(|c| c.okey == okey && c.holders.is_empty()) {
+                        if c.entry_instant_ub.is_some() {
+                            c.entry_instant_ub = Some(now);
+                        }
+                    }
                     // it may have popped an idle connection; where that goes is unknown when
                     // other requests are waiting
                     let (def, maybe) = w.hungry(&okey, Some(id));
@@ -1331,6 +1365,15 @@ impl Sim {
         self.set_actor(Actor::Idle);
         // ---- C04 rule D: connections that were healthy at a cancel must have survived it
         let mut w = self.w.lock().unwrap();
+        {
+            let st = w.step;
+            let now = std::time::Instant::now();
+            for c in w.conns.iter_mut() {
+                if c.entry_step == Some(st) {
+                    c.entry_instant_ub = Some(now);
+                }
+            }
+        }
         let watch = std::mem::take(&mut w.cancel_watch);
         for (cst, rid, conns) in watch {
             for c in conns {
@@ -1776,6 +1819,33 @@ fn check_idle_bound(w: &mut World) {
     }
 }
 
+/// C01 (pool-level leg): an uncancelled request fails although no connection attempt of its origin
+/// was failed by the history and the peer broke nothing.
+fn check_unfaulted_failures(w: &mut World) {
+    if w.cfg.req_timeout_ms.is_some() {
+        return;
+    }
+    for r in 0..w.reqs.len() {
+        let rq = &w.reqs[r];
+        if rq.probe || rq.status != RStatus::Done {
+            continue;
+        }
+        let Some(Err(e)) = rq.result.clone() else { continue };
+        let okey = rq.okey.clone();
+        let faulted = w.dials.iter().any(|d| d.okey == okey && (d.connect == Tri::Fail || d.handshake == Tri::Fail));
+        if faulted {
+            continue;
+        }
+        if e.contains("pool closed, no connection can be made") && !w.cfg.cont {
+            let msg = format!("request #{r} for {okey} failed with `{e}` although it was not cancelled and no connection attempt failed: the HTTP/2 dial it waited on was abandoned (continue_after_preemption=false)");
+            w.violate("C01/unavailable-after-abandoned-dial/cont=false", msg);
+        } else {
+            let msg = format!("request #{r} for {okey} failed with `{e}` although it was not cancelled, no connection attempt of its origin failed and no connection was broken");
+            w.violate("C01/request-failed-without-fault", msg);
+        }
+    }
+}
+
 /// End-of-history checks for C14 (b)/(c).
 fn check_abandoned_dials(w: &mut World) {
     let cont = w.cfg.cont;
@@ -1871,6 +1941,7 @@ pub fn run_pool_case(case: &PoolCase, logging: bool, phases: Phases) -> RunOut {
                 {
                     let mut w = sim.w.lock().unwrap();
                     check_abandoned_dials(&mut w);
+                    check_unfaulted_failures(&mut w);
                 }
                 if phases.probe {
                     let origins: Vec<(usize, bool)> = {
@@ -1954,13 +2025,14 @@ pub struct Weights {
     pub warm: u32,
     pub advance: u32,
     pub hold: u32,
+    pub sleep: u32,
     pub h2_pct: u32,
     pub alpn_pct: u32,
     pub origins: u8,
 }
 
 pub const GENERIC: Weights = Weights {
-    issue: 16, poll: 28, cancel: 5, dial_ok: 12, dial_fail: 2, hs_ok: 12, hs_fail: 2, release: 10, ready: 10, close: 3, takeover: 1, bg: 14, warm: 6, advance: 0, hold: 3,
+    issue: 16, poll: 28, cancel: 5, dial_ok: 12, dial_fail: 2, hs_ok: 12, hs_fail: 2, release: 10, ready: 10, close: 3, takeover: 1, bg: 14, warm: 6, advance: 0, hold: 3, sleep: 0,
     h2_pct: 40, alpn_pct: 10, origins: 6,
 };
 
@@ -1982,6 +2054,7 @@ pub fn op_strategy(wt: Weights) -> impl Strategy<Value = Op> {
         (wt.takeover, any::<u16>().prop_map(Op::TakeOver).boxed()),
         (wt.bg, Just(Op::Bg).boxed()),
         (wt.warm, (0..origins, 0u32..100).prop_map(move |(o, p)| Op::Warm { origin: o, h2: p < h2 }).boxed()),
+        (wt.sleep, Just(Op::Sleep(60)).boxed()),
         (wt.hold, (0..origins, 0u32..100).prop_map(move |(o, p)| Op::Hold { origin: o, h2: p < h2 }).boxed()),
         (wt.advance, prop_oneof![Just(1u16), Just(10u16), Just(20u16), 1u16..70].prop_map(Op::Advance).boxed()),
     ];
@@ -2011,6 +2084,15 @@ pub fn cfg_timeout_strategy() -> impl Strategy<Value = PoolCfg> {
         max_idle: m,
         cont,
         req_timeout_ms: Some(t),
+    })
+}
+
+pub fn cfg_expiry_strategy() -> impl Strategy<Value = PoolCfg> {
+    (prop_oneof![3 => Just(Some(25u64)), 1 => Just(Some(0u64)), 1 => Just(None), 1 => Just(Some(3_600_000u64))], any::<bool>()).prop_map(|(t, cont)| PoolCfg {
+        idle_timeout_ms: t,
+        max_idle: 32,
+        cont,
+        req_timeout_ms: None,
     })
 }
 
